@@ -293,7 +293,7 @@ func mutateEvent(t *rapid.T, ev abcitypes.Event) (abcitypes.Event, bool, bool, s
 			certain = true
 		}
 	case "addrlen":
-		if key == "Sender" {
+		if key == "Sender" && len(attrs[i].Value) >= 2 {
 			attrs[i].Value = attrs[i].Value[:len(attrs[i].Value)-2]
 			certain = true
 		}
